@@ -38,13 +38,20 @@ package types
 //@   ensures result == nil ==> source.off >= old(source.off)
 
 //@ func (*Sig).Deserialize
-//@   property C02
+//@   property C02, C39
 //@   requires this != nil && source != nil && source.off <= uint64(len(source.s))
 //@   modifies *this, source.off
 //@   ensures source.off <= uint64(len(source.s))
 //@   ensures result == nil ==> source.off >= old(source.off)
 //@   loop 1 invariant 0 <= i && len(sigData) == int(l) && source.off >= old(source.off) && source.off <= uint64(len(source.s))
 //@   loop 2 invariant 0 <= i && len(pubKeys) == int(l) && source.off >= old(source.off) && source.off <= uint64(len(source.s))
+//@   -- C39: a listed key is kept only after it was checked to be a point of its curve (the key codec takes the
+//@   -- uncompressed form as is; a signature over an off-curve point is forgeable and the address, derived from the
+//@   -- compressed form, is that of the genuine key with the same X)
+//@   ghost var keyOK bool = false
+//@   set after "pk, err := keypair.DeserializePublicKey(data)" : keyOK := false
+//@   set after "if err := validatePublicKey(pk); err != nil" : keyOK := true
+//@   assert[c39-key-on-curve] before "pubKeys[i] = pk" : keyOK
 
 //@ func (*Transaction).Deserialization
 //@   property C02
